@@ -170,6 +170,60 @@ def fault_sequences(ctx, rng):
             ctx.violate("faults", inp, res, "a cloud error", "a fault surfaced as something other than a cloud error")
 
 
+API_CODES = [1, 3004, 3101, 3102, 3106, 3144, 3176, 3301, 9999]
+
+
+def api_code_positions(ctx, rng):
+    """every API error code of a catalogue (session expired / invalid, bad credentials, sign error, unknown) as the answer
+    to each request of the flow in turn - and a server that really forgets the session after the login.  The error must
+    surface as a cloud error, and whatever the client sends afterwards (a retry, a re-login, a repeated request) must still
+    carry a signature, login id, password derivation and session id the conforming server verifies."""
+    for code in API_CODES:
+        for pos in range(3):
+            faults = [None] * pos + [("api", code)] + [None] * 8
+            srv, out = token_flow(ctx, rng, "api_codes", "middle", faults=faults)
+            res = out["res"]
+            inp = {"code": code, "request_index": pos}
+            if res != "err:cloud":
+                ctx.violate("api_codes", inp, str(res)[:60], "a cloud error", "an API error code did not surface as a cloud error")
+            if len(srv.requests) > pos + 1 + 6:
+                ctx.violate("api_codes", inp, len(srv.requests), "a bounded number of requests", "unbounded retrying after an API error")
+    # the server invalidates the session between login and get_token (answers 3106 by itself, verifying everything)
+    for _ in range(4):
+        udpid = rand_hex(rng, 32)
+        good = {"udpId": udpid, "token": rand_hex(rng, 128), "key": rand_hex(rng, 64)}
+        acct, pw = "user%d@example.com" % rng.randrange(1000), rand_hex(rng, 10)
+        srv = SpecServer(ctx, {acct: pw}, lambda u: [good])
+        cloud = NetHomePlusCloud("US", account=acct, password=pw, get_async_client=srv.client_factory)
+        out = {}
+
+        async def go():
+            await cloud.login()
+            srv.sessions.clear()
+            try:
+                out["first"] = await cloud.get_token(udpid)
+            except CloudError:
+                out["first"] = "err:cloud"
+            except Exception as e:  # noqa
+                out["first"] = "err:py:" + type(e).__name__
+            try:
+                await cloud.login(force=True)          # (a plain login() keeps an existing session by design)
+                out["second"] = await cloud.get_token(udpid)
+            except Exception as e:  # noqa
+                out["second"] = "err:" + type(e).__name__
+        asyncio.run(go())
+        inp = {"scenario": "session invalidated by the server after login"}
+        bad = [p_ for p_ in srv.problems if p_ != "session id not echoed"]
+        if bad:
+            ctx.violate("session_expired", inp, bad, "all requests verify", "a request sent after the session expired does not satisfy the server's contract: " + bad[0])
+        if out.get("first") not in ("err:cloud", (good["token"], good["key"])):
+            ctx.violate("session_expired", inp, str(out.get("first"))[:60], "a cloud error (or the credentials after a transparent re-login)",
+                        "an expired session surfaced as something else")
+        if out.get("second") != (good["token"], good["key"]):
+            ctx.violate("session_expired", inp, str(out.get("second"))[:60], "the credentials", "a forced fresh login after an expired session does not work")
+        ctx.case("session_expired", key=udpid, sample={**inp, "first": str(out.get("first"))[:20], "requests": len(srv.requests)})
+
+
 def discover_auto(ctx, rng, endian):
     """a V3 device registered under udpid(LE id) or udpid(BE id) is authenticated by auto-connect"""
     device_id = rng.randrange(2 ** 40, 2 ** 48)
@@ -339,6 +393,7 @@ def run(ctx):
         acct, pw = NetHomePlusCloud.CLOUD_CREDENTIALS[region]
         token_flow(ctx, rng, "regions", "middle", account=acct, password=pw)
     fault_sequences(ctx, rng)
+    api_code_positions(ctx, rng)
     sign_correspondence(ctx, rng, 150 if not thorough else 5000)
     for _ in range(6 if not thorough else 100):
         for endian in ("little", "big"):
